@@ -72,7 +72,7 @@ finally:
         for f in os.listdir(sd):
             if os.path.isfile(f'{sd}/{f}'): shutil.copy(f'{sd}/{f}', out)
         notes = open(f'{sd}/notes.md').read() if os.path.exists(f'{sd}/notes.md') else ''
-        meta = {'seed': name, 'breaks_property': res['properties'], 'needs_to_manifest': 'see notes.md', 'repo_head': res['repo_head'],
+        meta = {'seed': name, 'breaks_property': [name.split('-')[0]], 'also_checked': [x for x in res['properties'] if x != name.split('-')[0]], 'needs_to_manifest': 'see notes.md', 'repo_head': res['repo_head'],
                 'ran': {'build': 'go build ./... in a scratch worktree with the patch', 'suite': 'tools/run_baseline.py (pinned 242 tests by name) with the patch: ' + ('pass' if res.get('suite_passes_with_change') else 'FAIL'),
                         'demo_cmd': res.get('demo_cmd'), 'demo_with_change': 'fails' if res.get('demo_fails_with_change') else 'does not fail',
                         'demo_without_change': 'passes' if res.get('demo_passes_without_change') else 'does not pass'},
